@@ -210,6 +210,8 @@ type nodeRig struct {
 	inflight           int
 	promptAccept       bool // the responder's Accept is delivered inside SendMessage of the opening request
 	slowClose          int32
+	inCleanup          map[datatransfer.ChannelID]bool // transport cleanups that have begun and not returned
+	earlyTerminal      []chidTok                       // channels announced terminal while their transport cleanup was running
 	delayFailingCancel bool
 	mgrOpts            []impl.DataTransferOption // extra manager options (channel monitor configuration)
 	failRestartSends   bool                      // integrated monitor suite: every restart request fails to send
@@ -430,6 +432,20 @@ func (t *trDouble) SetEventHandler(events datatransfer.EventsHandler) error {
 	return nil
 }
 func (t *trDouble) CleanupChannel(chid datatransfer.ChannelID) {
+	if atomic.LoadInt32(&t.r.slowClose) == 1 {
+		// a transport that takes a while to release a channel (the graphsync adaptor waits for the channel's lock):
+		// the ending must wait for it; a terminal status announced meanwhile was reached without that cleanup
+		t.r.mu.Lock()
+		if t.r.inCleanup == nil {
+			t.r.inCleanup = map[datatransfer.ChannelID]bool{}
+		}
+		t.r.inCleanup[chid] = true
+		t.r.mu.Unlock()
+		time.Sleep(25 * time.Millisecond)
+		t.r.mu.Lock()
+		delete(t.r.inCleanup, chid)
+		t.r.mu.Unlock()
+	}
 	_ = t.rec(trRec{Kind: "cleanup", K: t.r.chidTokOf(chid)})
 }
 func (t *trDouble) Shutdown(ctx context.Context) error { return nil }
@@ -518,6 +534,9 @@ func (r *nodeRig) onEvent(evt datatransfer.Event, st datatransfer.ChannelState) 
 	}
 	v := r.viewOf(st)
 	r.mu.Lock()
+	if r.inCleanup[st.ChannelID()] && (st.Status() == datatransfer.Cancelled || st.Status() == datatransfer.Failed || st.Status() == datatransfer.Completed) {
+		r.earlyTerminal = append(r.earlyTerminal, r.chidTokOf(st.ChannelID()))
+	}
 	r.events = append(r.events, evRec{r.chidTokOf(st.ChannelID()), evt.Code, v, st})
 	r.allEvents = append(r.allEvents, evRec{r.chidTokOf(st.ChannelID()), evt.Code, v, st})
 	r.mu.Unlock()
